@@ -54,7 +54,27 @@ def nested(pairs):
     return d
 
 
-def check_case(rep, c):
+def rename_case(c, variant):
+    """The keys of Timeseries.tla are atoms; variant 1 instantiates them with the
+    names the Timeline process uses: the store 'global' holding a variable
+    'time' (below the top level, where 'time' is an ordinary name)."""
+    if not variant:
+        return c
+
+    def ren(p):
+        return [('global' if k == 'c' else 'time' if (k == 'b' and i > 0) else k)
+                for i, k in enumerate(p)]
+    c = json.loads(json.dumps(c))
+    for v in c['vars']:
+        v['p'] = ren(v['p'])
+    for q in c['queries']:
+        q['q'] = [ren(p) for p in seq(q['q'])]
+        q['res'] = [[[ren(pv[0]), pv[1]] for pv in seq(r)] for r in q['res']]
+    return c
+
+
+def check_case(rep, c, variant=0):
+    c = rename_case(c, variant)
     n = c['n']
     times = [float(i) for i in range(n)]
     rows = [nested([(v['p'], ATOM[v['vals'][i]]()) for v in c['vars']]) for i in range(n)]
@@ -137,8 +157,8 @@ def run(rep, tier, scratch):
         rep.notes['subsample'] = 'every third case of the exported table (quick tier)'
     else:
         rep.exhaustive = True
-    for c in cases:
-        check_case(rep, c)
+    for k, c in enumerate(cases):
+        rep.guard(check_case, rep, c, k % 2, what='history', detail=c.get('vars'))
     rep.traces = len(cases)
     if cases:
         rep.add_sample({'n': cases[7]['n'], 'vars': cases[7]['vars'],
